@@ -12,6 +12,13 @@ def f4_tree():
     return t
 
 
+def f12_tree():
+    """an optional length field and the optional string it measures, in different chunks"""
+    t = empty_tree()
+    t['']['structs'] += [{'name': 'SplitLen', 'body': [CH(F('id', 'char'), L('t_len', 'char', optional='true'), dict(BR), F('t', 'string', length='t_len', optional='true'))]}]
+    return t
+
+
 def run(tier):
     C = Check('C03', tier)
     C.prove('Properties/C03.v', bridges={'Properties/C03T.v': []})
@@ -30,14 +37,17 @@ def run(tier):
                     v = vg.obj(cls, body)
                 except Exception:
                     continue
-                jobs.append(dict(op='ser', cls=cls, value=v, san=False, then_deser=True, mutants=8 if quick else 14))
+                big = t['name'].startswith('mini-eo-core')      # large classes with short/three length fields: hostile counts are slow
+                jobs.append(dict(op='ser', cls=cls, value=v, san=False, then_deser=True, mutants=(3 if big else 8) if quick else 14))
             # uniformly random / empty / junk inputs directly
             for data in ([], [0xFF], [0x00], [0xFE] * 3, [rng.randrange(256) for _ in range(rng.randrange(1, 12))], [0xFF, 1, 0xFF, 0xFF, 2]):
                 jobs.append(dict(op='deser', cls=cls, data=data, chunked=rng.random() < 0.3))
         entries.append(dict(name=t['name'], tree=t['tree'], jobs=jobs))
     f4 = dict(name='F4-shape', tree=f4_tree(), jobs=[dict(op='deser', cls='Holder', data=[2, 0xFF, 1], chunked=False),
                                                      dict(op='deser', cls='Holder', data=[2, 3, 4, 5], chunked=False)])
-    run_entries(C, runner, entries + [f4])
+    f12 = dict(name='F12-shape', tree=f12_tree(), jobs=[dict(op='deser', cls='SplitLen', data=[2, 0xFF, 65, 66], chunked=False),
+                                                       dict(op='deser', cls='SplitLen', data=[2, 3, 0xFF, 65, 66], chunked=False)])
+    run_entries(C, runner, entries + [f4, f12])
     # ---- which classes does the termination theorem (C03_terminates_core) cover?  decided in Coq per tree
     prog = {}
     try:
@@ -62,7 +72,7 @@ def run(tier):
     # ---- property oracle on the implementation: terminates, only the documented ValueError, position inside the data
     ndeser = nerr = ntrunc = 0
     kinds = {}
-    for e in entries + [f4]:
+    for e in entries + [f4, f12]:
         r = e['result']
         outs = []
         for job, out in zip(e.get('jobs', []), r.get('results', [])):
@@ -92,13 +102,15 @@ def run(tier):
                 # a hang on a class the theorem covers would contradict it and is reported as a new violation
                 covered = prog.get((id(e), cls), (True, True))[1 if d['chunked'] else 0]
                 key = 'F4-chunked-element-in-unchunked-implied-length-array' if 'time limit' in bad and (e is f4 or not covered) else None
+                if e is f12 and 'EType' in bad:
+                    key = 'F12-optional-length-field-absent-but-its-string-present'
                 C.violation(f"tree '{e['name']}': " + bad, dict(unit='generated deserialize', input=dict(tree=e['name'], xml=tree_xml(e['tree']), cls=cls, data=d['data'], chunked=d['chunked'])), key=key)
     C.stream('oracle.deserialize', ndeser, ndeser - 0, sample=dict(tree=entries[0]['name']))
     C.cov['distribution'] = dict(deserialize_calls=ndeser, truncated_valid_serializations=ntrunc, raised=nerr, exception_kinds=kinds)
-    mism = compare_entries(C, 'c03', entries + [f4], 'deserialize', want=('deser',), max_cases_per_tree=300 if quick else 500)
+    mism = compare_entries(C, 'c03', entries + [f4, f12], 'deserialize', want=('deser',), max_cases_per_tree=300 if quick else 500)
     # direct deser jobs are not paired with a ser job: compare them too
     extra = []
-    for e in entries + [f4]:
+    for e in entries + [f4, f12]:
         cases = [deser_case(job['cls'], out) for job, out in zip(e['jobs'], e['result'].get('results', [])) if job['op'] == 'deser' and 'res' in out and not out.get('heavy')]
         if cases and e['result'].get('accepted'):
             extra.append((e, cases))
@@ -122,5 +134,4 @@ def run(tier):
 
 
 def replay(path):
-    print("replay: the replay file holds the specification XML, class and bytes; re-run `./bin/check C03 quick`")
-    return 0
+    return gen_replay(path)
